@@ -123,6 +123,206 @@ def _timedelta(I, args, kw):
     secs = kw.get("seconds", args[1] if len(args) > 1 else VInt(0))
     return VReal(to_real(I.force(days)) * 86400 + to_real(I.force(secs)))
 
+# ---------------------------------------------------------------- process environment / os.path / json / contextvars
+# (added for C16/C10: log writer and staging contracts)
+
+class VHook(V):
+    """python-side object whose attributes are builtin methods given by a table"""
+    t = None
+
+    def __init__(self, tag, methods):
+        self.tag = tag
+        self.methods = methods
+
+    def get_attr(self, I, name):
+        if name in self.methods:
+            return VFunc("builtin", "%s.%s" % (self.tag, name), impl=self.methods[name])
+        return None
+
+
+def env_terms():
+    has = z3.Function("environ_has", z3.StringSort(), z3.BoolSort())
+    val = z3.Function("environ_val", z3.StringSort(), z3.StringSort())
+    return has, val
+
+
+def _environ_get(I, args, kw):
+    """os.environ.get(k[, d]): the process environment is an *unknown but fixed* mapping during one verified call
+    (environ_has / environ_val are uninterpreted functions of the variable name); nothing writes it."""
+    I.ver.note_assumption("os.environ is an arbitrary mapping that does not change during the verified call")
+    k = args[0]
+    if not isinstance(k, VStr):
+        raise Unsupported("os.environ.get with non-string key")
+    has, val = env_terms()
+    if len(args) > 1 and isinstance(args[1], VStr):
+        return VStr(z3.If(has(k.e), val(k.e), args[1].e))
+    if len(args) > 1 and not isinstance(args[1], VNone):
+        raise Unsupported("os.environ.get default of %s" % type(args[1]).__name__)
+    t = TOpt(TStr)
+    return VOpt(z3.If(has(k.e), t.some(val(k.e)), t.none()), t)
+
+
+def _str_uf(name, n):
+    return z3.Function(name, *([z3.StringSort()] * (n + 1)))
+
+
+def _basename(I, args, kw):
+    """os.path.basename: deterministic uninterpreted string function (no structural facts assumed)"""
+    a = I.to_str(args[0]) if not isinstance(args[0], VStr) else args[0]
+    return VStr(_str_uf("os_path_basename", 1)(a.e))
+
+
+def _path_join(I, args, kw):
+    """os.path.join(a, b): deterministic uninterpreted string function"""
+    if len(args) != 2:
+        raise Unsupported("os.path.join arity %d" % len(args))
+    xs = [x if isinstance(x, VStr) else I.to_str(x) for x in args]
+    return VStr(_str_uf("os_path_join", 2)(xs[0].e, xs[1].e))
+
+
+def _may_raise_oserror(tag):
+    def f(I, args, kw):
+        """OS call whose effect is outside the model: returns None or raises OSError"""
+        if I.spec:
+            return VNone()
+        b = I.path.fresh("oserr_" + tag, z3.BoolSort())
+        if I.path.branch(b):
+            raise PyRaise(VExc("OSError", [VStr(tag)], any_subclass=True))
+        return VNone()
+    return f
+
+
+def _dumps_tag(kw):
+    parts = []
+    for k in sorted(kw):
+        v = kw[k]
+        if k == "indent" or k == "default" or k == "cls":
+            raise Unsupported("json.dumps(%s=...)" % k)
+        if isinstance(v, VTuple):
+            c = tuple(const_of(x) for x in v.items)
+        else:
+            c = const_of(v)
+        if c is B._NOCONST or (isinstance(c, tuple) and any(x is B._NOCONST for x in c)):
+            raise Unsupported("json.dumps with symbolic option %s" % k)
+        parts.append("%s=%r" % (k, c))
+    return ";".join(parts)
+
+
+def _json_dumps(I, args, kw):
+    """json.dumps(x, **opts) without `indent`: a deterministic uninterpreted function of (x, opts) into strings.
+    Trusted fact: the output contains no raw LF / CR (control characters inside strings are escaped)."""
+    x = args[0]
+    if isinstance(x, VDictRec):
+        raise Unsupported("json.dumps of a literal dict")
+    tag = _dumps_tag(kw)
+    t = typeof(x)
+    nm = "json_dumps<%s>_%s" % (tag, "".join(c if c.isalnum() else "_" for c in t.name))
+    f = z3.Function(nm, t.sort(), z3.StringSort())
+    r = f(unwrap(x, t))
+    I.path.assume(z3.And(z3.Not(z3.Contains(r, z3.StringVal("\n"))), z3.Not(z3.Contains(r, z3.StringVal("\r")))))
+    I.ver.note_assumption("json.dumps (no indent): uninterpreted deterministic function of (value, options); its output has no raw LF/CR")
+    return VStr(r)
+
+
+def _ctxvar(I, args, kw):
+    """contextvars.ContextVar(name, default=...): the current value lives in the contract's ghost variable
+    `ctx_<name>` (declare it with ghost={"ctx_<name>": (type, "any")}); get() reads it, set() writes it."""
+    name = const_of(args[0])
+    if not isinstance(name, str):
+        raise Unsupported("ContextVar with symbolic name")
+    gname = "ctx_" + name
+
+    def get(I2, a, k):
+        if a or k:
+            raise Unsupported("ContextVar.get(default)")
+        v = I2.ghost_env.lookup(gname)
+        if v is None:
+            raise Unsupported("ContextVar %s read: declare ghost %s in the contract" % (name, gname))
+        return v
+
+    def set_(I2, a, k):
+        if I2.ghost_env.lookup(gname) is None:
+            raise Unsupported("ContextVar %s written: declare ghost %s in the contract" % (name, gname))
+        I2.ghost_env.set(gname, a[0])
+        return VOpaque("ctx_token")
+
+    return VHook("ContextVar:" + name, {"get": get, "set": set_})
+
+
+def _open(I, args, kw):
+    """open(path, mode) for the log writers: every open / write is recorded in the ghost traces
+    `fs_opens: List[Tuple[str, str]]` and `fs_writes: List[Tuple[str, str, str]]` (path, mode, data) of the contract.
+    open and write may raise OSError; nothing else about the file system is modelled.  bytes == str (utf-8
+    encoding is treated as the identity on text)."""
+    opens = I.ghost_env.lookup("fs_opens")
+    writes = I.ghost_env.lookup("fs_writes")
+    if opens is None or writes is None:
+        raise Unsupported("open(): declare ghost fs_opens / fs_writes in the contract")
+    path = args[0] if isinstance(args[0], VStr) else I.to_str(args[0])
+    mode = args[1] if len(args) > 1 else kw.get("mode", VStr("r"))
+    _may_raise_oserror("open")(I, [], {})
+    B.seq_method(I, opens, "append", [VTuple([path, mode])], {})
+    I.ver.note_assumption("open()/write(): only the sequence of calls (path, mode, data) is modelled (ghost trace); "
+                          "one write() on an O_APPEND handle lands as one contiguous chunk (POSIX, assumed)")
+
+    def write(I2, a, k):
+        data = a[0]
+        if not isinstance(data, VStr):
+            raise Unsupported("file.write of %s" % type(data).__name__)
+        _may_raise_oserror("write")(I2, [], {})
+        B.seq_method(I2, writes, "append", [VTuple([path, mode, data])], {})
+        return VInt(z3.Length(data.e))
+
+    def noop(I2, a, k):
+        return VNone()
+
+    return VHook("file", {"write": write, "close": noop, "flush": noop})
+
+
+# ---- tiny private file-name model for scripts/rotate_logs.py (C16 rotation).  NOT the general file-system model
+# (pyvc/fsmodel.py is being built for C08); it only knows which names exist and what they hold:
+# ghost `rfs: Dict[str, Un[Blob]]` declared by the contract.
+
+def _rfs(I, what):
+    m = I.ghost_env.lookup("rfs")
+    if m is None:
+        raise Unsupported("%s: declare ghost rfs (Dict[str, Un[Blob]]) in the contract" % what)
+    return m
+
+
+def _as_path_str(I, v):
+    return v if isinstance(v, VStr) else I.to_str(v)
+
+
+def _path_exists(I, args, kw):
+    """os.path.exists(p) == p names a file in the ghost name space `rfs`"""
+    m = _rfs(I, "os.path.exists")
+    return VBool(z3.Select(m.dom, _as_path_str(I, args[0]).e))
+
+
+def _os_remove(I, args, kw):
+    """os.remove(p): FileNotFoundError when p is absent; otherwise removes exactly p, or fails with some other
+    OSError (permissions ...) leaving everything as it was"""
+    m = _rfs(I, "os.remove")
+    p = _as_path_str(I, args[0])
+    if not I.path.branch(z3.Select(m.dom, p.e)):
+        raise PyRaise(VExc("FileNotFoundError", [VStr("remove")]))
+    if I.path.branch(I.path.fresh("oserr_remove", z3.BoolSort())):
+        # PermissionError stands for every OSError that is not a FileNotFoundError
+        raise PyRaise(VExc("PermissionError", [VStr("remove")], any_subclass=True))
+    B.map_remove(I, m, p.e)
+    return VNone()
+
+
+def _pathlib_path(I, args, kw):
+    """pathlib.Path(s): a path object is identified with its string"""
+    if len(args) != 1:
+        raise Unsupported("Path() arity")
+    return _as_path_str(I, args[0])
+
+
+SPEC_FUNCS = {"env_get": _environ_get, "os_basename": _basename, "os_join": _path_join, "json_dumps": _json_dumps,
+              "open": _open}
 
 # ---------------------------------------------------------------- concurrent.futures (trusted model)
 
@@ -220,6 +420,14 @@ TABLE = {
     ("datetime", "timedelta"): _timedelta,
     ("datetime", "now"): _nondet_real("datetime.now"),
     ("concurrent", "ThreadPoolExecutor"): _thread_pool_executor,
+    ("os", "makedirs"): _may_raise_oserror("makedirs"),
+    ("os.path", "basename"): _basename,
+    ("os.path", "join"): _path_join,
+    ("os.path", "exists"): _path_exists,
+    ("os", "remove"): _os_remove,
+    ("pathlib", "Path"): _pathlib_path,
+    ("json", "dumps"): _json_dumps,
+    ("contextvars", "ContextVar"): _ctxvar,
     ("math", "sqrt"): _sqrt,
     ("math", "isfinite"): _isfinite,
     ("math", "isnan"): _isnan,
@@ -235,15 +443,33 @@ TYPING = {"Any", "Dict", "List", "Tuple", "Optional", "Callable", "Iterable", "I
           "MutableMapping", "TYPE_CHECKING"}
 
 
+def _uses_fsmodel(ver):
+    c = getattr(ver, "cur", None)
+    if c is None:
+        return False
+    return bool(getattr(c, "fs_inv", None) or getattr(c, "fs_policy", None) or getattr(c, "fs_opts", None) or "fs" in getattr(c, "ghost", {}))
+
+
 def external_member(ver, modname, attr):
+    key0 = (modname.split(".")[0] if modname else "", attr)
+    from . import fsmodel
+    if _uses_fsmodel(ver):
+        if key0 in fsmodel.TABLE:
+            return VFunc("builtin", "%s.%s" % key0, impl=fsmodel.TABLE[key0])
+        if key0 in fsmodel.CONSTS:
+            return mk_const(fsmodel.CONSTS[key0])
+    if modname == "os" and attr == "environ":
+        return VHook("os.environ", {"get": _environ_get})
+    if modname == "os" and attr == "path":
+        return VModule("os.path", None)
+    if modname == "os.path" and ("os.path", attr) in TABLE:
+        return VFunc("builtin", "os.path.%s" % attr, impl=TABLE[("os.path", attr)])
     key = (modname.split(".")[0] if modname else "", attr)
     if key in TABLE:
         return VFunc("builtin", "%s.%s" % key, impl=TABLE[key])
     if key in (("datetime", "datetime"), ("datetime", "timezone")):
         # class used as a namespace only: datetime.datetime.now(tz) / datetime.timezone.utc
         return VModule("datetime." + attr, None)
-    # abstract file system / OS primitives (os, pathlib, tempfile, time.sleep, random.uniform, errno, json.dumps)
-    from . import fsmodel
     if key in fsmodel.TABLE:
         return VFunc("builtin", "%s.%s" % key, impl=fsmodel.TABLE[key])
     if key in fsmodel.CONSTS:
